@@ -11,6 +11,7 @@
   grid"; it also keeps the code's `weight/sum_weight` away from Mathlib's `x/0 = 0`.
 -/
 import Proofs.C05NV
+import Proofs.C05Midpoint
 
 namespace Taurex.C05
 open Taurex.Binning List
@@ -156,14 +157,94 @@ theorem sorted_is_perm (rows : List (Row ℝ)) (ts : List (TBin ℝ)) :
 
 /-- the guard covers the property's "non-overlapping ordered bins": sorted bins of non-negative width that do not
     overlap (gaps allowed, touching allowed) are ordered bins.  (Mid-point widths of linear / logarithmic /
-    constant-R grids overlap to second order; for those the guard is evaluated numerically on every generated
-    case by the harness and by the model.) -/
+    constant-R grids overlap to second order: `midpoint_bins_ordered` and its corollaries below.) -/
 theorem disjoint_bins_are_ordered (rows : List (Row ℝ)) (hw : ∀ r ∈ rows, r.lo ≤ r.hi)
     (hdis : rows.Pairwise (fun r r' => r.hi ≤ r'.lo)) : OrderedBins rows :=
   disjoint_bins_ordered rows hw hdis
 
 example : OrderedBins nvRows := disjoint_bins_are_ordered nvRows nvRows_widths (by
   unfold nvRows; simp [Row.lo, Row.hi]; norm_num)
+
+/-- **midpoint_bins_ordered**: for rows given in strictly increasing wavenumber (at least two), the mid-point bins
+    that `FluxBinner.bindown` forms when no widths are passed (`compute_bin_edges`: `w_0 = d_0`,
+    `w_{n-1} = d_{n-2}`, `w_i = (d_{i-1}+d_i)/2`, symmetrised about the centre) are ordered bins as soon as the
+    successive spacings `d_i = g[i+1]-g[i]` satisfy `d_{i+1} ≤ 4 d_i + d_{i-1}` and `d_{i-1} ≤ 4 d_i + d_{i+1}`
+    (`MidpointSpacingOK`; at the ends the missing neighbour is the end spacing itself). -/
+theorem midpoint_bins_ordered (rows : List (Row ℝ)) (hn : 2 ≤ rows.length)
+    (hg : (rows.map Row.c).Pairwise (· < ·)) (hok : MidpointSpacingOK (rows.map Row.c)) :
+    OrderedBins (nativeBins false rows) ∧ (∀ r ∈ nativeBins false rows, r.lo ≤ r.hi) :=
+  ⟨midpoint_ordered rows hn hg hok, midpoint_widths_nonneg rows⟩
+
+/-- (a) **linear grids** (constant spacing `d > 0`) are ordered — and the mid-point bins are exactly contiguous. -/
+theorem linear_grid_ordered (rows : List (Row ℝ)) (hn : 2 ≤ rows.length) (d : ℝ) (hd : 0 < d)
+    (hlin : ∀ i, i + 1 < (rows.map Row.c).length → spacing (rows.map Row.c) i = d) :
+    OrderedBins (nativeBins false rows) ∧
+    (∀ i, i + 1 < (rows.map Row.c).length →
+      (rows.map Row.c).getD i 0 + (computeBinEdges (rows.map Row.c)).2.getD i 0 / 2 =
+        (rows.map Row.c).getD (i + 1) 0 - (computeBinEdges (rows.map Row.c)).2.getD (i + 1) 0 / 2) :=
+  ⟨midpoint_ordered rows hn (linear_increasing _ d hd hlin) (linear_spacing_ok _ d hd.le hlin),
+   linear_contiguous _ (by rw [List.length_map]; exact hn) d hd hlin⟩
+
+/-- (b) **geometric grids** `g[i+1] = r·g[i]`, `g[0] > 0`, `1 < r ≤ 4` (logarithmic spacing; constant resolving
+    power `R`: `r = 1 + 1/R`) are ordered. -/
+theorem geometric_grid_ordered (rows : List (Row ℝ)) (hn : 2 ≤ rows.length) (r : ℝ)
+    (h0 : 0 < (rows.map Row.c).getD 0 0) (hr1 : 1 < r) (hr4 : r ≤ 4)
+    (hgeo : ∀ i, i + 1 < (rows.map Row.c).length →
+      (rows.map Row.c).getD (i + 1) 0 = r * (rows.map Row.c).getD i 0) :
+    OrderedBins (nativeBins false rows) :=
+  midpoint_ordered rows hn (geometric_increasing _ r h0 hr1 hgeo) (geometric_spacing_ok _ r h0 hr1 hr4 hgeo)
+
+/-- four points 1, 2, 3, 4 (linear, d = 1) and 1, 2, 4, 8 (geometric, r = 2) -/
+example : OrderedBins (nativeBins false [(⟨1, 0, 10, 0⟩ : Row ℝ), ⟨2, 0, 20, 0⟩, ⟨3, 0, 30, 0⟩, ⟨4, 0, 40, 0⟩]) :=
+  (linear_grid_ordered _ (by simp) 1 (by norm_num) (by
+    intro i hi
+    simp only [List.map_cons, List.map_nil, List.length_cons, List.length_nil] at hi
+    have : i = 0 ∨ i = 1 ∨ i = 2 := by omega
+    rcases this with rfl | rfl | rfl <;> norm_num [spacing])).1
+
+example : OrderedBins (nativeBins false [(⟨1, 0, 10, 0⟩ : Row ℝ), ⟨2, 0, 20, 0⟩, ⟨4, 0, 30, 0⟩, ⟨8, 0, 40, 0⟩]) :=
+  geometric_grid_ordered _ (by simp) 2 (by norm_num) (by norm_num) (by norm_num) (by
+    intro i hi
+    simp only [List.map_cons, List.map_nil, List.length_cons, List.length_nil] at hi
+    have : i = 0 ∨ i = 1 ∨ i = 2 := by omega
+    rcases this with rfl | rfl | rfl <;> norm_num)
+
+/-- **flux_is_overlap_mean_linear / _geometric**: on the named grid families the code equals the overlap-weighted
+    mean for every target that overlaps the grid — no per-case guard. -/
+theorem flux_is_overlap_mean_linear (val : Row ℝ → ℝ) (rows : List (Row ℝ)) (a b d : ℝ) (hn : 2 ≤ rows.length)
+    (hd : 0 < d) (hlin : ∀ i, i + 1 < (rows.map Row.c).length → spacing (rows.map Row.c) i = d) (hab : a < b)
+    (hpos : 0 < sumL ((nativeBins false rows).map (overlap a b))) :
+    fluxBinVal val (nativeBins false rows) a b = overlapMeanSpec val (nativeBins false rows) a b :=
+  flux_midpoint_eq_spec val rows a b hn (linear_increasing _ d hd hlin) (linear_spacing_ok _ d hd.le hlin) hab hpos
+
+theorem flux_is_overlap_mean_geometric (val : Row ℝ → ℝ) (rows : List (Row ℝ)) (a b r : ℝ)
+    (hn : 2 ≤ rows.length) (h0 : 0 < (rows.map Row.c).getD 0 0) (hr1 : 1 < r) (hr4 : r ≤ 4)
+    (hgeo : ∀ i, i + 1 < (rows.map Row.c).length →
+      (rows.map Row.c).getD (i + 1) 0 = r * (rows.map Row.c).getD i 0) (hab : a < b)
+    (hpos : 0 < sumL ((nativeBins false rows).map (overlap a b))) :
+    fluxBinVal val (nativeBins false rows) a b = overlapMeanSpec val (nativeBins false rows) a b :=
+  flux_midpoint_eq_spec val rows a b hn (geometric_increasing _ r h0 hr1 hgeo)
+    (geometric_spacing_ok _ r h0 hr1 hr4 hgeo) hab hpos
+
+example : fluxBinVal Row.s (nativeBins false [(⟨1, 0, 10, 0⟩ : Row ℝ), ⟨2, 0, 20, 0⟩, ⟨3, 0, 30, 0⟩, ⟨4, 0, 40, 0⟩]) 2 4 =
+    overlapMeanSpec Row.s (nativeBins false [(⟨1, 0, 10, 0⟩ : Row ℝ), ⟨2, 0, 20, 0⟩, ⟨3, 0, 30, 0⟩, ⟨4, 0, 40, 0⟩]) 2 4 :=
+  flux_is_overlap_mean_linear Row.s _ 2 4 1 (by simp) (by norm_num) (by
+    intro i hi
+    simp only [List.map_cons, List.map_nil, List.length_cons, List.length_nil] at hi
+    have : i = 0 ∨ i = 1 ∨ i = 2 := by omega
+    rcases this with rfl | rfl | rfl <;> norm_num [spacing]) (by norm_num) (by
+    norm_num [nativeBins, sortBy, insertBy, withWidths, computeBinEdges, midEdges, diffs, absv, sumL, overlap,
+      mn, mx, Row.lo, Row.hi])
+
+example : fluxBinVal Row.s (nativeBins false [(⟨1, 0, 10, 0⟩ : Row ℝ), ⟨2, 0, 20, 0⟩, ⟨4, 0, 30, 0⟩, ⟨8, 0, 40, 0⟩]) 2 4 =
+    overlapMeanSpec Row.s (nativeBins false [(⟨1, 0, 10, 0⟩ : Row ℝ), ⟨2, 0, 20, 0⟩, ⟨4, 0, 30, 0⟩, ⟨8, 0, 40, 0⟩]) 2 4 :=
+  flux_is_overlap_mean_geometric Row.s _ 2 4 2 (by simp) (by norm_num) (by norm_num) (by norm_num) (by
+    intro i hi
+    simp only [List.map_cons, List.map_nil, List.length_cons, List.length_nil] at hi
+    have : i = 0 ∨ i = 1 ∨ i = 2 := by omega
+    rcases this with rfl | rfl | rfl <;> norm_num) (by norm_num) (by
+    norm_num [nativeBins, sortBy, insertBy, withWidths, computeBinEdges, midEdges, diffs, absv, sumL, overlap,
+      mn, mx, Row.lo, Row.hi])
 
 /-- **perm_spec**: the overlap-weighted mean itself does not depend on the order of the native bins (no
     distinctness needed). -/
